@@ -33,3 +33,114 @@ def harnesses(tier):
         for op in (("iadd", "add") if tier == "quick" else ("iadd", "add", "mul", "copy")):
             out.append(vec_history(t, op, timeout=90 if tier == "quick" else 240))
     return out
+
+
+BUF_SETUP = C03_SETUP + '''
+import numpy as _rnp
+BX = [[0.5, NAN, 1.0, -INF, 2.0, 0.0], [NAN, NAN, 0.5, 1.5, INF, -1.0], [0.0, 1.0, 2.0, 0.5, 1.5, -0.5], [INF, -INF, NAN, 1.0, 1.0, 0.0]]
+BY = [[0.25, -0.5, NAN, 1.0, INF, 0.0], [1.0, 1.0, 1.0, NAN, 0.0, -INF], [0.0, 0.5, 1.0, 1.5, 2.0, 2.5], [NAN, 0.0, 1.0, NAN, -1.0, 2.0]]
+BW = [[1.0, 2.0, 0.0, 0.5, 3.0, 1.0], [1.0, 1.0, 1.0, 1.0, 1.0, 1.0], [0.0, 0.0, 2.5, 0.0, 1.0, 0.0]]
+'''
+
+
+def buffers(tree, timeout=40):
+    """real numpy, concrete batches with NaN/inf rows and zero weights: the caller's arrays must come back untouched and
+    mean the same thing when they are used again (a fast path that masks rows in place is invisible to content checks
+    of a single fill)"""
+    body = """
+k = sel(k, 0, 1, 2, 3); j = sel(j, 0, 1, 2)
+with NT():
+    res = ""
+    x = _rnp.array(BX[k]); y = _rnp.array(BY[k]); c = _rnp.array(["a", "b", "a", "c", "b", "a"]); n = _rnp.array([0.0, 1.0, 2.0, 1.0, 0.0, 1.0])
+    w = _rnp.array(BW[j])
+    before = [a.copy() for a in (x, y, n, w)]
+    cols = Cols((x, y, c, n))
+    h1 = MK(); h1.fill.numpy(cols, w)
+    for a, b in zip((x, y, n, w), before):
+        if not _rnp.array_equal(a, b, equal_nan=True): res = res or "input-or-weight-array-modified"
+    h2 = MK(); h2.fill.numpy(cols, w)
+    ref = MK()
+    for i in range(6): ref.fill((BX[k][i], BY[k][i], ["a", "b", "a", "c", "b", "a"][i], [0.0, 1.0, 2.0, 1.0, 0.0, 1.0][i]), BW[j][i])
+    if not jclose(dropzero(h2.toJson()), dropzero(ref.toJson())): res = res or "reused-arrays-give-a-different-aggregate-than-row-fill"
+    if not jclose(dropzero(h1.toJson()), dropzero(ref.toJson())): res = res or "numpy-fill-differs-from-row-fill"
+    # the same weight array handed to two sibling trees (what a collection does with its children)
+    both = H.Branch(MK(), MK()); both.fill.numpy(cols, w)
+    if not jclose(dropzero(both.values[0].toJson()), dropzero(both.values[1].toJson())): res = res or "second-sibling-sees-different-weights-than-the-first"
+if res: return res
+"""
+    return Harness(f"C03/buffers/{tree.name}", [("k", "int"), ("j", "int")], "0 <= k <= 3 and 0 <= j <= 2", body, timeout=timeout,
+                   setup=BUF_SETUP + f"MK = lambda: {tree.expr}\n", tree=tree.expr,
+                   bounds="real numpy, body untraced; 4 concrete 6-row batches (NaN, +-inf, edges) x 3 weight arrays by selector; arrays compared before/after, reused, and shared by two siblings")
+
+
+def buffer_harnesses(tier):
+    import gen_C03
+    trees = [t for t in cat.unit() if gen_C03._fillable(t)] + [cat.Tree(nm, e) for nm, e in gen_C03.EXTRA] + cat.deep()
+    if tier == "thorough":
+        trees += [t for t in cat.slot() if gen_C03._fillable(t)]
+    return [buffers(t) for t in trees]
+
+
+EDGE_SETUP = C03_SETUP + '''
+import numpy as _rnp
+import probes
+BINS = [(4, 0.0, 4.0), (10, 0.0, 1.0), (3, 0.0, 0.3), (7, -1.0 / 3.0, 2.0 / 3.0), (100, 1e6 + 0.1, 1e6 + 10.1), (5, -1e-3, 1e-3), (10, -5.0, 5.0), (6, 0.1, 0.7)]
+SPARSE = [(1.0, 0.0), (0.5, 0.25), (0.1, 0.0), (1.0 / 3.0, 1e6 + 0.1), (2.0, -7.0)]
+CENTRES = [[0.0, 2.0], [-0.1, 0.2, 0.3], [-3.0, 1.1, 5.2], [0.1, 0.7, 1.3, 2.9]]
+ident = lambda a: a
+'''
+
+
+def edge_probes(kind, k, child, timeout=40):
+    """real numpy, untraced: every edge of one configuration, its float neighbours and the midpoints, filled row by row and as
+    one batch; children = Count (fast paths) or Sum (generic paths).  Sampled at the ulp level, where the real-number
+    model of the symbolic harnesses is blind.  One harness per configuration and child kind, so that a recorded finding
+    names exactly the configuration it is about."""
+    mk = {
+        "Bin": ("BINS", "H.Bin(cfg[0], cfg[1], cfg[2], ident, CH())", "[cfg[1] + i * (cfg[2] - cfg[1]) / cfg[0] for i in range(cfg[0] + 1)]"),
+        "SparselyBin": ("SPARSE", "H.SparselyBin(cfg[0], ident, CH(), H.Count(), cfg[1])", "[cfg[1] + i * cfg[0] for i in range(-3, 4)]"),
+        "CentrallyBin": ("CENTRES", "H.CentrallyBin(cfg, ident, CH())", "cfg + [(a + b) / 2.0 for a, b in zip(cfg, cfg[1:])]"),
+        "IrregularlyBin": ("CENTRES", "H.IrregularlyBin(cfg, ident, CH())", "cfg"),
+        "Stack": ("CENTRES", "H.Stack(cfg, ident, CH())", "cfg"),
+    }[kind]
+    body = f"""
+order = sel(order, 0, 1)
+with NT():
+    cfg = {mk[0]}[{k}]
+    CH = [lambda: H.Count(), lambda: H.Sum(ident)][{0 if child == "Count" else 1}]
+    xs = probes.edge_probes({mk[2]})
+    if order == 1: xs = xs[::-1]
+    a = {mk[1]}; b = {mk[1]}
+    for x in xs: a.fill(x)
+    b.fill.numpy(_rnp.array(xs))
+    ja, jb = dropzero(a.toJson()), dropzero(b.toJson())
+    res = ""
+    if not jclose(ja, jb):
+        bad = [x for x in sorted(xs) if not jclose(dropzero(_one({mk[1]!r}, cfg, CH, x, False)), dropzero(_one({mk[1]!r}, cfg, CH, x, True)))]
+        res = "edge-value-binned-differently-by-fill.numpy:x=%r" % (bad[:1] or ["?"])[0]
+if res: return res
+"""
+    setup = EDGE_SETUP + '''
+def _one(expr, cfg, CH, x, vec):
+    h = eval(expr)
+    if vec: h.fill.numpy(_rnp.array([x]))
+    else: h.fill(x)
+    return h.toJson()
+'''
+    cfgs = {"BINS": EDGE_BINS, "SPARSE": EDGE_SPARSE, "CENTRES": EDGE_CENTRES}[mk[0]]
+    return Harness(f"C03/edge-probes/{kind}/{cfgs[k]!r}/{child}".replace(" ", ""), [("order", "int")], "0 <= order <= 1", body, timeout=timeout, setup=setup,
+                   tree=mk[1], bounds=f"configuration {cfgs[k]!r}, children {child}; data = every edge, +1/-1/-2 ulp, midpoints, ascending or descending (concrete, real numpy)")
+
+
+EDGE_BINS = [(4, 0.0, 4.0), (10, 0.0, 1.0), (3, 0.0, 0.3), (7, -1.0 / 3.0, 2.0 / 3.0), (100, 1e6 + 0.1, 1e6 + 10.1), (5, -1e-3, 1e-3), (10, -5.0, 5.0), (6, 0.1, 0.7)]
+EDGE_SPARSE = [(1.0, 0.0), (0.5, 0.25), (0.1, 0.0), (1.0 / 3.0, 1e6 + 0.1), (2.0, -7.0)]
+EDGE_CENTRES = [[0.0, 2.0], [-0.1, 0.2, 0.3], [-3.0, 1.1, 5.2], [0.1, 0.7, 1.3, 2.9]]
+
+
+def edge_harnesses(tier):
+    out = []
+    for kind, cfgs in (("Bin", EDGE_BINS), ("SparselyBin", EDGE_SPARSE), ("CentrallyBin", EDGE_CENTRES), ("IrregularlyBin", EDGE_CENTRES), ("Stack", EDGE_CENTRES)):
+        for k in range(len(cfgs)):
+            for child in ("Count", "Sum"):
+                out.append(edge_probes(kind, k, child))
+    return out
